@@ -35,10 +35,15 @@ class Gen:
         else:
             nl = r.choice([0, 5, 255, 256, 257]); dl = r.choice([0, 2000, 2001, 4096, 4097]); ad = r.choice([0, 1, 100, 101])
         img = r.choice([0, 0, 7])
-        if r.random() < 0.6:
+        x = r.random()
+        if x < 0.6:
             li = la = lp = None
-        else:
+        elif x < 0.9 or not self.p.get("partial_ptr", True):
             li, la, lp = r.choice(MIDS), r.choice(TS), r.choice(TS)
+        else:
+            # a pointer whose three fields were NOT written together (rows backfilled by an older schema): the fallback arms of
+            # Group::update_last_message_if_newer — Model.Store.dominates has them, no history reached them (mutation campaign, M0065)
+            li, la, lp = r.choice([(r.choice(MIDS), r.choice(TS), None), (None, r.choice(TS), None), (None, r.choice(TS), r.choice(TS))])
         return f"save_group {gid} {nid} {nl} {dl} {ad} {img} {o(li)} {o(la)} {o(lp)} {r.choice(EPOCHS)} {r.choice([0,0,0,1,2])} {r.choice([0,0,50])}"
 
     def message(self, gid=None, mid=None, within=True):
@@ -243,20 +248,62 @@ def load_corpus(prop):
                         cur["ops"].append(l)
     return cases
 
+def impl_answers(cases, engine="store"):
+    """the implementation's answer lines, one list per case (header line included).  A harness process that DIES (a panic
+    outside a per-operation catch_unwind, an abort) loses only the case it died in: the lines it did not answer read `died`,
+    `case['died_at']` is the index of the first of them (0 = the `backend` line), the remaining cases run in a fresh process."""
+    out, rest, deaths = [], list(cases), 0
+    while rest:
+        text = "".join(f"backend {c['backend']}\n" + "\n".join(c["ops"]) + "\n" for c in rest)
+        rc, lines, err = C.run_lines([C.VH, engine], text)
+        total = sum(len(c["ops"]) + 1 for c in rest)
+        if len(lines) > total or (len(lines) < total and rc == 0):
+            raise RuntimeError(f"{engine} engine: implementation answered {len(lines)} of {total} lines rc={rc}\n{err[-800:]}")
+        i = 0
+        for idx, c in enumerate(rest):
+            n = len(c["ops"]) + 1
+            if i + n > len(lines):
+                got = lines[i:]
+                c["died_at"] = len(got)
+                c["died_err"] = err[-400:]
+                out.append(got + ["died"] * (n - len(got)))
+                rest = rest[idx + 1:]
+                deaths += 1
+                if deaths > max(25, len(cases) // 2):
+                    raise RuntimeError(f"{engine} engine: the implementation process died in {deaths} of {len(cases)} cases rc={rc}\n{err[-800:]}")
+                break
+            out.append(lines[i:i + n]); i += n
+        else:
+            rest = []
+    return out
+
+def died_failures(cases, case_text_fn=None):
+    """a dead harness process is a concrete failing input: the history up to the operation it died in"""
+    fails = []
+    for c in cases:
+        if c.get("died_at") is None:
+            continue
+        k = max(c["died_at"] - 1, 0)
+        op = c["ops"][k] if c["died_at"] > 0 and c["ops"] else "backend " + c["backend"]
+        what = f"{c['id']}[{c['backend']}] the implementation process died at `{op}` (panic outside the call, or abort): {c.get('died_err', '')[-200:]!r}"
+        fails.append({"kind": "oracle", "signature": "process-died:" + op.split()[0], "what": what,
+                      "replay_body": (case_text_fn or case_text)(c, k, "the implementation process died here"), "case": c, "step": k})
+    return fails
+
 def run(cases):
     """execute on implementation and model; fills case['impl'], case['model']"""
     text = ""
     for c in cases:
         text += f"backend {c['backend']}\n" + "\n".join(c["ops"]) + "\n"
-    rc1, impl, err1 = C.run_lines([C.VH, "store"], text)
+    impl = impl_answers(cases)
     rc2, model, err2 = C.run_lines([C.DRV, "store"], text)
     total = sum(len(c["ops"]) + 1 for c in cases)
-    if len(impl) != total or len(model) != total:
-        raise RuntimeError(f"store engine: line count mismatch impl={len(impl)} model={len(model)} expected={total} rc={rc1},{rc2}\n{err1[-800:]}\n{err2[-800:]}")
+    if len(model) != total:
+        raise RuntimeError(f"store engine: line count mismatch model={len(model)} expected={total} rc={rc2}\n{err2[-800:]}")
     i = 0
-    for c in cases:
+    for c, a in zip(cases, impl):
         n = len(c["ops"]) + 1
-        c["impl"] = impl[i + 1:i + n]
+        c["impl"] = a[1:]
         c["model"] = model[i + 1:i + n]
         i += n
     return cases
@@ -275,8 +322,10 @@ def case_text(c, upto=None, note=""):
 
 def correspondence(cases):
     """model-vs-implementation disagreements (first per case)"""
-    fails = []
+    fails = died_failures(cases)
     for c in cases:
+        if c.get("died_at") is not None:
+            continue
         for k, (op, a, b) in enumerate(zip(c["ops"], c["impl"], c["model"])):
             if not same(a, b):
                 fails.append({"kind": "corr", "signature": "corr:" + op.split()[0],
